@@ -88,11 +88,13 @@ class Server(object):
                 # "unexpected behavior" (quoting MSDN)
                 self.listener.setsockopt(socket.SOL_SOCKET, socket.SO_REUSEADDR, 1)
             self.listener.bind(address)
-            self.listener.settimeout(listener_timeout)
 
             # hack for IPv6 (the tuple can be longer than 2)
             sockname = self.listener.getsockname()
             self.host, self.port = sockname[0], sockname[1]
+        # whatever the address family: accept() has to come back to Python now and then, or a signal that arrives
+        # just before the call (SIGCHLD of a ForkingServer) is not handled until the next client connects
+        self.listener.settimeout(listener_timeout)
 
         if logger is None:
             logger = logging.getLogger("%s/%s" % (self.service.get_service_name(), self.port))
